@@ -134,6 +134,11 @@ Definition dispatch_chain (tbl : sx) (name : bytes) (arg : sx) : sx :=
     let P := params_of_sx (nth_sx 0 arg) in
     let '(s, outs) := run_ops tbl P cs_empty (get_list (nth_sx 1 arg)) in
     SL [SL outs; if get_N (nth_sx 2 arg) =? 1 then sx_state tbl s else SL []]
+  else if is "new_target"%string then
+    (* (params, previous target, elapsed seconds) -> the retargeted target: function-level correspondence *)
+    SB (Pow.calculate_new_target (params_of_sx (nth_sx 0 arg)) (get_bytes (nth_sx 1 arg)) (get_N (nth_sx 2 arg)))
+  else if is "select_height"%string then
+    SN (Pow.select_block_height (get_bytes (nth_sx 0 arg)) (get_N (nth_sx 1 arg)))
   else SL [SN 777].
 
 Definition dispatch_all (tbl : sx) (name : bytes) (arg : sx) : sx :=
